@@ -465,6 +465,16 @@ def judge(chk, drv, obs, line, case, what, stats, corr_fail):
         stats["result-value-differs(logged only)"] += 1
     same = (m["outcome"] == obs.outcome and m["changed"] == obs.changed and m["alias"] == obs.alias
             and m["root"] == obs.root)
+    if (not same and case.get("dir") == "un" and m["outcome"] == obs.outcome and m["changed"] == obs.changed
+            and set(obs.alias) <= set(m["alias"])
+            and any(c.get("kind") == "td" and c.get("recursive") for c in case.get("world", {}).get("classes", []))):
+        # a self-referential TypedDict: cattrs unstructures the nested levels by late binding on the RUN-TIME class (the
+        # recorded finding F39 of C03), so it copies containers the declared-type model would pass through: the
+        # implementation shares LESS than the model predicts.  Not modelled; never a violation of C11.
+        chk.unmodelled += 1
+        stats["unmodelled"] += 1
+        chk.note("unmodelled:recursive-typeddict-late-binding(F39)")
+        return
     if not same:
         corr_fail.append((what, {"impl": {"outcome": obs.outcome, "changed": obs.changed, "alias": obs.alias,
                                           "root": obs.root, "value": obs.value}, "model": m}, case))
